@@ -4,6 +4,7 @@ go 1.24.2
 
 require (
 	github.com/AdguardTeam/golibs v0.0.0
+	github.com/gomodule/redigo v1.9.2
 	github.com/robfig/cron/v3 v3.0.1
 	golang.org/x/net v0.39.0
 )
